@@ -307,7 +307,31 @@ def run(ctx):
             raise AnalysisError("anchor vanished: CT_PlotArea.%s" % nm)
         mp = max_plus_one(prog, f)
         if mp is None:
-            ctx.error("CT_PlotArea." + nm, "allocator not recognised (expected max(<%s of every series>) + 1)" % child)
+            # a value derived from ONE series' number (`last_ser.order.val + 1`) is a counter-fact: it is not the maximum over all
+            from sa import paths as P7
+            from sa.inline import expand as _exp7
+
+            fx7 = _exp7(prog, f, local_only=True)
+            val7 = P7.value_aliases(fx7)
+            single = []
+            for r7 in P7.outcomes(fx7.body, P7.aliases(fx7)):
+                if r7.end != "return" or r7.path.end_node.value is None:
+                    continue
+                v7 = ast.parse(P7.full(r7.path.end_node.value, val7, depth=8), mode="eval").body
+                if isinstance(prog.const(v7, f.module), int):
+                    continue
+                agg = any(isinstance(c, (ast.ListComp, ast.GeneratorExp, ast.SetComp)) or (isinstance(c, ast.Call) and dotted(c.func) in (
+                    "max", "min", "sorted", "sum", "len", "reduce", "functools.reduce", "map")) for c in ast.walk(v7))
+                reads = [c for c in ast.walk(v7) if isinstance(c, ast.Attribute) and c.attr == "val" and isinstance(c.value, ast.Attribute) and c.value.attr == child]
+                loops = any(isinstance(c, (ast.For, ast.While)) for c in ast.walk(fx7))
+                if reads and not agg and not loops:
+                    single.append(ast.unparse(v7))
+            if single:
+                ctx.violation("R7.4", "CT_PlotArea." + nm, "allocator is not max(existing %s over all series of the chart)+1: the next value is derived "
+                              "from one series only (`%s`); a series elsewhere in the chart may already carry it" % (child, single[0][:80]),
+                              file=f.file, line=f.line)
+            else:
+                ctx.error("CT_PlotArea." + nm, "allocator not recognised (expected max(<%s of every series>) + 1)" % child)
             continue
         ok = mp["elt"] == "_.%s.val" % child and "self.sers" in mp["via"] + [mp["terminal"]] and not mp["filtered"] and mp["empty"] == 0
         if ok:
